@@ -186,6 +186,8 @@ func scenarios(thorough bool) []*scenario {
 		fmtFileScenario("formatter-mangled/typed-enum", schemaTypedEnum, false),
 		fmtFileScenario("formatter-mangled/flags-enum", schemaFlagsEnum, false),
 	)
+	// field tags are comments the generator reads: //[tag(...)] directly after the slashes
+	out = append(out, fmtFileScenario("valid/with-field-tags", "struct Account {\n//[tag(json:\"id,omitempty\")]\n//[tag(db:\"account_id\")]\nguid id;\n// plain comment\n//[tag(json:\"name\")]\nstring name;\n}\nmessage Event {\n//[tag(json:\"at\")]\n1 -> date at;\n//[tag(boolean)]\n2 -> bool seen;\n}\nunion Either {\n//[tag(kind:\"a\")]\n1 -> struct A {\n//[tag(json:\"x\")]\nint32 x;\n}\n2 -> message B {\n//[tag(json:\"y\")]\n1 -> int32 y;\n}\n}\n", false))
 	hl := fmtFileScenario("valid/file-is-hard-linked", schemaValidRaw, false)
 	hl.Hardlinks = map[string]string{"elsewhere/second-name.bop": "file.bop"}
 	out = append(out, hl)
@@ -247,6 +249,16 @@ func scenarios(thorough bool) []*scenario {
 		fmtDirScenario("validation-error", three(schemaValidRaw, schemaUndefined, schemaValidRaw3), nil, false),
 		fmtDirScenario("formatter-mangled/typed-enum", three(schemaValidRaw, schemaTypedEnum, schemaValidRaw3), nil, false),
 	)
+	// a directory in a mixed state: some files are formatted already (a second run after a file was added), in every
+	// position relative to the ones that still need rewriting
+	if f1, f3 := formatFixpoint(schemaValidRaw), formatFixpoint(schemaValidRaw3); f1 != "" && f3 != "" {
+		out = append(out,
+			fmtDirScenario("valid/formatted-file-first", three(f1, schemaValidRaw2, schemaValidRaw3), nil, false),
+			fmtDirScenario("valid/formatted-file-last", three(schemaValidRaw, schemaValidRaw2, f3), nil, false),
+			fmtDirScenario("valid/formatted-first-and-last", three(f1, schemaValidRaw2, f3), nil, false),
+			fmtDirScenario("valid/only-last-unformatted", map[string]string{"a.bop": f1, "b.bop": f3, "c.bop": schemaValidRaw2}, nil, false),
+		)
+	}
 	// 256 and 257 files that cannot be parsed (an exit status is one byte: a count of failures wraps to 0 at 256)
 	for _, n := range []int{256, 257} {
 		files := map[string]string{"zz_valid.bop": schemaValidRaw}
